@@ -629,3 +629,68 @@ func init() {
 		}
 	}
 }
+
+// bracketSpec: what the driver must do with the bracket methods of a construct, ignoring
+// which expressions it evaluates in between (that is C04's business): openers, headers,
+// bodies and closers in matched order on every success path.
+var bracketSpec = map[string]string{
+	"If":                 `^conv\(IfStart\) block (conv\(ElseIfStart\) block conv\(ElseIfEnd\) )*(conv\(ElseStart\) block conv\(ElseEnd\) )?conv\(IfEnd\)$`,
+	"For":                `^(stmt )?conv\(ForStart\) (conv\(ForIncrementStart\) stmt conv\(ForIncrementEnd\) )?conv\(ForCondition\) block conv\(ForEnd\)$`,
+	"FunctionDefinition": `^conv\(FuncStart\) block conv\(FuncEnd\)$`,
+	"Program":            `^conv\(ProgramStart\) (stmt )*conv\(ProgramEnd\)$`,
+	"Block":              `^(conv\(Nop\)|(stmt ?)+)$`,
+}
+
+// BracketProtoRule checks the bracket projection of the driver handlers.
+func BracketProtoRule(w *World, r *Result, rule string) {
+	df, err := BuildDriverFacts(w)
+	if err != nil {
+		r.Bad(rule, "bracket:driver", "-", err.Error())
+		return
+	}
+	seen := map[string]bool{}
+	for _, d := range df.Fns {
+		spec, ok := bracketSpec[d.Node]
+		if !ok {
+			continue
+		}
+		if _, isRec := df.rec[d.Fn]; isRec && d.Node != "Block" {
+			continue
+		}
+		seen[d.Node] = true
+		key := "bracket:" + d.Node + "@" + d.Fn.Name()
+		pos := w.Pos(d.Fn.Pos())
+		if d.Trunc {
+			r.Bad(rule, key+":paths", pos, "too many paths to enumerate")
+			continue
+		}
+		re := regexp.MustCompile(spec)
+		var bad []string
+		for _, t := range d.Traces {
+			var proj []string
+			for _, e := range t {
+				switch {
+				case strings.HasPrefix(e, "conv("):
+					proj = append(proj, e)
+				case strings.HasPrefix(e, "block("):
+					proj = append(proj, "block")
+				case strings.HasPrefix(e, "stmt("):
+					proj = append(proj, "stmt")
+				}
+			}
+			if s := strings.Join(proj, " "); !re.MatchString(s) {
+				bad = append(bad, "["+s+"]")
+			}
+		}
+		if len(bad) > 0 {
+			r.Bad(rule, key, pos, fmt.Sprintf("%d of %d success paths of %s call the bracket methods of %s out of the matched order %s — e.g. %s: an opening or closing line is missing from the script", len(bad), len(d.Traces), d.Fn.Name(), d.Node, spec, bad[0]))
+		} else {
+			r.Ok(rule, key, pos, fmt.Sprintf("%d success paths: bracket methods in matched order", len(d.Traces)))
+		}
+	}
+	for n := range bracketSpec {
+		if !seen[n] {
+			r.Bad(rule, "bracket:"+n, "-", "no driver handler found for "+n)
+		}
+	}
+}
